@@ -4,6 +4,7 @@ import copy
 import json
 import random
 
+import c04_config as K
 import common as C
 import hist
 import progs as P
@@ -85,6 +86,8 @@ def plan_interleaved(seed, store_kind):
 
 def run_one(pl):
     try:
+        if pl.get("config"):
+            return K.run_config_history(pl["events"], pl["store"])
         return hist.run_history(pl["events"], store_kind=pl["store"])
     except Exception as e:  # noqa
         return {"error": str(e)[-1000:]}
@@ -93,15 +96,28 @@ def run_one(pl):
 def run(rep, tier, seed, proof_ok):
     n = 9 if tier == "quick" and proof_ok else 72
     n_steps = 2 if tier == "quick" else 4
+    n_cfg = 2 * len(K.SHAPES) * (1 if tier == "quick" and proof_ok else 4)
     rep.rule = (f"{n} random pipelines (kept paths of 1..3 segments with shared directories) x edit histories of {n_steps} steps x store kinds "
                 "{local, local+object-cache, memory} (+ histories in which another process evaluates an edited copy of the code on the same "
                 "store between two evaluations of a long-lived process); after every evaluation each path kept so far is loaded through dds.load from a "
                 "fresh process (same process for the memory store) and, for the local store, read from the file under the data "
                 "directory; compared with the Coq model's store state and with the dds-free reference (value most recently kept); "
+                f"+ {n_cfg} histories in which the CONFIGURATION of the local store changes between evaluations ({len(K.SHAPES)} shapes x "
+                "{new process, possibly with edited code | dds.set_store in the process that evaluated before} x {local, local+object-cache}; "
+                "on one data directory: internal directory replaced by a fresh one / by a copy / renamed / renamed with a symbolic link left "
+                "at the old location, two internal directories alternating, old location re-created empty, only part of the paths kept again "
+                "under the new one; on one internal directory: data directory switched and switched back; retired internal directories are "
+                "then deleted): after every evaluation and after every deletion each path is loaded from a fresh process, read from the "
+                "file under the data directory and its link inspected - a path kept by the latest evaluation must serve the value of the "
+                "dds-free reference through a link inside the internal directory of that evaluation, also once the other internal "
+                "directories are gone; a path not kept again retains what it served; "
                 "distinct = distinct (history, probe); non-trivial = probe of a path that has been committed")
     kinds = ["local", "local+lru", "memory"]
     plans = [plan(seed * 1000 + i, n_steps, kinds[i % 3]) for i in range(n)]
     plans += [plan_interleaved(seed * 1000 + 500 + i, ["local+lru", "local"][i % 2]) for i in range(4 if tier == "quick" and proof_ok else 24)]
+    # store configuration changing inside the history: every shape x {new process, same process}, store kinds alternating
+    plans += [K.plan_config(seed * 1000 + 700 + j + len(K.SHAPES) * r, K.SHAPES[j], ["local", "local+lru"][(j + r + r // 2) % 2], bool(r % 2))
+              for r in range(n_cfg // len(K.SHAPES)) for j in range(len(K.SHAPES))]
     # minimised past failures first
     import glob
     import os
@@ -123,10 +139,29 @@ def run(rep, tier, seed, proof_ok):
     plans = corpus_plans + plans
     with cf.ThreadPoolExecutor(max_workers=C.NPROC) as ex:
         results = list(ex.map(run_one, plans))
-    nprobe = {"load": 0, "rawfile": 0}
+    nprobe = {"load": 0, "rawfile": 0, "linkinfo": 0}
+    ncfg = {"histories": 0, "in_process": 0, "by_shape": {}, "probes": 0, "probes_of_committed_paths": 0, "probes_after_a_directory_was_deleted": 0}
     for pl, recs in zip(plans, results):
         if isinstance(recs, dict):
             rep.violation("harness-error:c04", "history could not be run: " + recs["error"][-300:], {"events": pl["events"]}, no_input=True)
+            continue
+        if pl.get("config"):
+            problems, st = K.judge(recs, pl["store"], pl["shape"])
+            for key, what, i in problems:
+                rep.violation(key, what, {"config": True, "events": pl["events"], "action": i, "store": pl["store"], "shape": pl["shape"],
+                                          "in_process": pl["in_process"]}, no_input=key.startswith("harness-error"))
+            for i, committed in st["cases"]:
+                rep.case(f"{pl['seed']}:{i}", nontrivial=committed)
+            for k in nprobe:
+                nprobe[k] += st[k]
+            ncfg["histories"] += 1
+            ncfg["in_process"] += pl["in_process"]
+            ncfg["by_shape"][pl["shape"]] = ncfg["by_shape"].get(pl["shape"], 0) + 1
+            ncfg["probes"] += len(st["cases"])
+            ncfg["probes_of_committed_paths"] += st["committed"]
+            ncfg["probes_after_a_directory_was_deleted"] += st["after_retire"]
+            rep.sample({"store": pl["store"], "entry": pl["call"], "paths": pl["paths"], "configuration_shape": pl["shape"],
+                        "in_process": pl["in_process"]}, cap=5)
             continue
         last_model_load = {}
         for i, r in enumerate(recs):
@@ -154,9 +189,12 @@ def run(rep, tier, seed, proof_ok):
                     rep.violation("file-wrong:" + pl["store"], f"the file under the data directory for {a['path']} holds {r['impl']['out'][:80]} but the latest "
                                   f"evaluation kept {r['ref']['out'][:80]}", {"events": pl["events"], "action": i, "store": pl["store"]})
         rep.sample({"store": pl["store"], "entry": pl["call"], "paths": pl["paths"]}, cap=3)
-    rep.extra["input_distribution"] = {"histories": len(plans), "probes": nprobe}
+    rep.extra["input_distribution"] = {"histories": len(plans), "probes": nprobe, "store_configuration_histories": ncfg}
 
 
 def replay(path):
+    r = json.load(open(path))["replay"]
+    if r.get("config"):
+        return K.replay(r)
     import c01
     return c01.replay(path)
